@@ -158,7 +158,23 @@ fn op_strategy(n: u8) -> impl Strategy<Value = Op> {
 fn skeleton(which: u8, n: u8) -> Vec<Op> {
     use Op::*;
     let (a, b, c, d, e) = (0u8, 1u8, 2u8, 3u8, 4u8);
-    match which % 3 {
+    match which % 4 {
+        // a candidate wins a voter's vote in two consecutive terms (answers lost), the voter
+        // restarts, a rival campaigns in the same term
+        3 => vec![
+            ForceElection(a),
+            DeliverFromTo(a, b),
+            ForceElection(a),
+            DeliverFromTo(a, b),
+            CrashRestart(b),
+            ForceElection(c),
+            ForceElection(c),
+            DeliverFromTo(c, b),
+            DeliverFromTo(b, c),
+            DeliverFromTo(b, a),
+            HeartbeatRound(a),
+            HeartbeatRound(c),
+        ],
         // stale follower: a holds unreplicated entries of an old term while b leads
         0 => vec![
             ElectRound(a),
@@ -259,7 +275,7 @@ fn case_strategy(t: Tier) -> impl Strategy<Value = Case> {
                 prop::collection::vec(0u8..4, n as usize),
                 prop::collection::vec(op_strategy(n), 0..max_ops),
                 // skeleton choice (None in 2/3 of cases), role permutation keys, gap sizes
-                prop::option::weighted(0.34, 0u8..3),
+                prop::option::weighted(0.4, 0u8..4),
                 prop::collection::vec(any::<u16>(), 5),
                 prop::collection::vec(0u8..3, 32),
             )
@@ -412,6 +428,14 @@ impl<'a> Sim<'a> {
             },
             None => Vec::new(),
         }
+    }
+
+    fn vote_of(&self, i: usize) -> Option<String> {
+        let st = &self.scratch;
+        if self.nodes[i].save_to_store(st).is_err() {
+            return None;
+        }
+        RaftNode::load_from_store(&self.ids[i], st).and_then(|(_, v, _)| v)
     }
 
     fn block(&mut self, proposer: &str) -> Block {
@@ -649,6 +673,7 @@ impl<'a> Sim<'a> {
                         .map_err(|e| Fail::new("harness", format!("save_to_store failed: {e}")))?;
                 }
                 let term_before = self.nodes[i].current_term();
+                let vote_before = self.vote_of(i);
                 let log_before = self.log_of(i);
                 let fresh = self.make_node(i)?;
                 self.nodes[i] = fresh;
@@ -660,6 +685,13 @@ impl<'a> Sim<'a> {
                     return Err(Fail::new(
                         "restart-term",
                         format!("node {i} had term {term_before} before a clean restart and {} after", self.nodes[i].current_term()),
+                    ));
+                }
+                let vote_after = self.vote_of(i);
+                if vote_after != vote_before {
+                    return Err(Fail::new(
+                        "restart-vote",
+                        format!("node {i} had voted_for = {vote_before:?} in term {term_before} before a clean restart and {vote_after:?} after"),
                     ));
                 }
                 if log_after != log_before {
